@@ -444,9 +444,12 @@ def execute(case):
     return res.violate('Sweeping raised %r after %d proposals of %d; %s' % (e, len(seq), len(ref), what), law='sweeping-raises', **sig)
   if seq != got:
     return res.violate('Sweeping sequence differs from iter_dna; %s' % what, law='sweeping-sequence', **sig)
-  try:
-    algo.propose()
-    return res.violate('Sweeping proposes beyond the end of the space; %s' % what, law='sweeping-end', **sig)
-  except StopIteration:
-    pass
+  # the end is final: asking again (a second worker, a second pass) does not start the sweep over
+  for attempt in (1, 2, 3):
+    try:
+      d = algo.propose()
+      return res.violate('Sweeping proposes %r beyond the end of the space (call %d after the last member); %s' % (
+          d.to_numbers(), attempt, what), law='sweeping-end', attempt=str(attempt), **sig)
+    except StopIteration:
+      pass
   return res
